@@ -209,6 +209,27 @@ def info_one(ctx, sf, case, reqs, pend):
                                        '"fn"' not in json.dumps(w) and '"pow"' not in json.dumps(w) for w in walked):
         if np.asarray(real[1]).dtype != np.float32:
             ctx.fail("dtype-ignored", f"par_evaluate(p, dtype=float32) returns {np.asarray(real[1]).dtype}", rp)
+    # dependency extraction, judged by an independent walk over the stored SymPy trees: every subsystem whose
+    # measured parameter occurs ANYWHERE in the parameter (array element, nested expression) must be reported,
+    # by par_regref_deps, by Operation.measurement_deps and by Command.get_dependencies
+    want_deps = sorted({m for w in walked if w is not None for m in px.atoms(w, "m")})
+    got_deps = sorted({r.ind for r in deps})
+    if got_deps != want_deps:
+        ctx.fail("regref-deps-wrong", f"par_regref_deps({obj}) reports subsystems {got_deps}; measured parameters of "
+                 f"{want_deps} occur in it", rp)
+    else:
+        try:
+            from strawberryfields import ops as O
+            op = O.Dgate(obj, 0.0)
+            with prog.context:
+                op | prog.reg_refs[5]
+            cdeps = sorted({r.ind for r in prog.circuit[-1].get_dependencies()})
+            odeps = sorted({r.ind for r in op.measurement_deps})
+            if odeps != want_deps or cdeps != sorted(set(want_deps) | {5}):
+                ctx.fail("command-deps-wrong", f"Dgate({obj}) | q[5]: measurement_deps {odeps}, get_dependencies {cdeps}; "
+                         f"measured parameters of {want_deps} occur in the parameter", rp)
+        except Exception as e:
+            ctx.fail("command-deps-raises", f"Dgate({obj}) | q[5] raises {type(e).__name__}: {str(e)[:160]}", rp)
     if foreign:
         ctx.fail("regref-of-another-program", f"par_regref_deps returns RegRefs {foreign} that are not the "
                  f"RegRefs of the Program the parameter was built in (another Program touched q[i].par)", rp)
@@ -502,6 +523,109 @@ def decomp_compare(ctx, sf, case, sym, model):
             return
 
 
+# =============================================================== B3b: param.expand (Compiler.decompose)
+
+PRIMS = {"Dgate": 2, "Sgate": 2, "Rgate": 1, "BSgate": 2}
+
+
+def gen_expand_case(rng):
+    u = next(_uid)
+    names = [f"e{u}"]
+    meas = {m: dy(rng, -8, 8) for m in INFO_MODES}
+    free = {names[0]: dy(rng, -8, 8)}
+    cmds = []
+    for _ in range(rng.randint(2, 5)):
+        cls = rng.choice(list(TEMPLATES) + list(PRIMS))
+        npar = TEMPLATES.get(cls, PRIMS.get(cls))
+        ps = []
+        for _k in range(npar):
+            if rng.random() < 0.3:
+                ps.append(px.num(dy(rng, -8, 8)))
+                continue
+            for _try in range(50):
+                t = px.gen_expr(rng, rng.randint(0, 2), names, INFO_MODES, p_atom=0.5)
+                if px.well_conditioned(t, free, meas, 50) and abs(px.fold(t, free, meas)) > 1e-3:
+                    break
+            else:
+                t = {"m": 10}
+            ps.append(t)
+        two = cls in TWO or cls == "BSgate"
+        cmds.append(dict(cls=cls, pars=ps, regs=rng.sample([0, 3, 5, 10, 11], 2 if two else 1),
+                         dagger=cls != "DisplacedSqueezed" and rng.random() < 0.4))
+    return dict(n=12, names=names, meas=meas, free=free, cmds=cmds, compiler=rng.choice(["fock", "gaussian", "bosonic"]))
+
+
+def expand_real(sf, case, numeric):
+    from strawberryfields import ops
+    from strawberryfields.compilers import compiler_db
+    from strawberryfields.parameters import par_evaluate
+    prog = sf.Program(case["n"])
+    fobj = {nm: prog.params(nm) for nm in case["names"]}
+    env_m = {int(k): v for k, v in case["meas"].items()}
+    for m, v in env_m.items():
+        prog.reg_refs[m].val = np.array([v])
+    for nm, v in case["free"].items():
+        fobj[nm].val = v
+    with prog.context:
+        q = prog.reg_refs
+        for c in case["cmds"]:
+            pars = [px.numval(t) if "n" in t else (float(px.fold(t, case["free"], env_m)) if numeric else px.to_sympy(t, fobj, q))
+                    for t in c["pars"]]
+            o = getattr(ops, c["cls"])(*pars)
+            if c["dagger"]:
+                o = o.H
+            regs = [q[i] for i in c["regs"]]
+            o | (regs if len(regs) > 1 else regs[0])
+    comp = compiler_db[case["compiler"]]()
+    out = comp.decompose(prog.circuit)
+    return [(type(c.op).__name__, [r.ind for r in c.reg], bool(getattr(c.op, "dagger", False)),
+             [float(x) for x in par_evaluate(c.op.p)]) for c in out], sorted(comp.decompositions)
+
+
+def expand_one(ctx, sf, case, reqs, pend):
+    from strawberryfields.program_utils import CircuitError
+    rp = dict(kind="expand", case=case)
+    ctx.count("expand_" + case["compiler"], case, True, sample=case)
+    try:
+        numc, dec = expand_real(sf, case, True)
+    except CircuitError:
+        ctx.tally("expand_rejected_by_compiler")
+        return
+    ctx.oracle_cases += 1
+    try:
+        sym, dec = expand_real(sf, case, False)
+    except Exception as e:
+        ctx.fail("compile-symbolic-raises", f"{case['compiler']}.decompose runs on the substituted circuit but raises "
+                 f"{type(e).__name__}: {str(e)[:160]} on the symbolic one", rp)
+        return
+    if len(sym) != len(numc) or not all(a[:3] == b[:3] and px.close(a[3], b[3]) for a, b in zip(sym, numc)):
+        ctx.fail("compile-symbolic-vs-substituted", f"{case['compiler']}.decompose: symbolic circuit evaluates to {sym}, "
+                 f"substituted circuit decomposes to {numc}", rp)
+    if ctx.proof_ok:
+        reqs.append({"op": "param.expand", "cmds": case["cmds"], "dec": dec, "fuel": 4})
+        pend.append(("expand", case, sym))
+
+
+def expand_compare(ctx, sf, case, sym, model):
+    ctx.corr_cases += 1
+    if isinstance(model, dict) and "__error__" in model:
+        ctx.disagree("Compiler.decompose", case, model, "driver error")
+        return
+    env_f = dict(case["free"])
+    env_f.update(consts(sf))
+    env_m = {int(k): v for k, v in case["meas"].items()}
+    shape_m = [(c["cls"], c["regs"], c["dagger"]) for c in model]
+    shape_r = [(a[0], a[1], a[2]) for a in sym]
+    if shape_m != shape_r:
+        ctx.disagree("Compiler.decompose.shape", case, shape_m, shape_r)
+        return
+    for c, a in zip(model, sym):
+        mv = [px.fold(t, env_f, env_m) for t in c["pars"]]
+        if len(mv) != len(a[3]) or not px.close(mv, a[3]):
+            ctx.disagree("Compiler.decompose.pars", case, mv, a[3])
+            return
+
+
 # =============================================================== B4: param.engine (histories)
 
 USE_OPS = ["Dgate", "Rgate", "Sgate", "Kgate"]
@@ -513,7 +637,7 @@ def gen_history(rng, shots_variant=False):
     modes_all = list(range(n)) if n <= 4 else [0, 1, n - 3, n - 2, n - 1]   # two-digit indices on large registers
     name = f"h{u}"
     free = {name: dy(rng)}
-    opt = (not shots_variant) and rng.random() < 0.3
+    opt = rng.choice(["compile", "method"]) if (not shots_variant) and rng.random() < 0.35 else False
     segs, measured = [], []
     for s in range(rng.randint(1, 4)):
         cmds = []
@@ -541,6 +665,10 @@ def gen_history(rng, shots_variant=False):
                     t = {"add": [t, {"m": rng.choice(pool)}]}
                 cmds.append(dict(k="use", e=t, op=rng.choice(USE_OPS), dagger=rng.random() < 0.4,
                                  target=rng.choice(modes_all)))
+                if rng.random() < 0.3 and not shots_variant:
+                    # array-valued parameter: [e, e2] (an object array of expressions)
+                    cmds[-1]["e2"] = px.gen_expr(rng, rng.randint(0, 2), [], pool, p_atom=0.5) if rng.random() < 0.7 \
+                        else px.num(dy(rng))
                 if measured and rng.random() < 0.25:
                     # a mode just read is measured again right behind (feed-forward must not slip behind it)
                     rd = [m for m in px.atoms(t, "m") if m in measured]
@@ -553,7 +681,7 @@ def gen_history(rng, shots_variant=False):
                 c["vals"] = [[dy(rng) for _ in range(3)] for _ in c["modes"]]  # per mode: 3 shots
     # registers with holes: delete a mode nobody uses, create a mode late and act on it
     flat = [c for sg in segs for c in sg]
-    used = {m for c in flat for m in (c.get("modes", []) + [c.get("mode"), c.get("target")] + (px.atoms(c["e"], "m") if "e" in c else []))}
+    used = {m for c in flat for m in (c.get("modes", []) + [c.get("mode"), c.get("target")] + (px.atoms(c["e"], "m") if "e" in c else []) + (px.atoms(c["e2"], "m") if "e2" in c else []))}
     idle = [m for m in range(n) if m not in used]
     if idle and not shots_variant and rng.random() < 0.4:
         sg = rng.choice(segs)
@@ -586,6 +714,8 @@ def history_reference(sf, h):
             elif c["k"] == "use":
                 try:
                     v = px.fold(c["e"], h["free"], latest)
+                    if "e2" in c:
+                        v = [v, px.fold(c["e2"], h["free"], latest)]
                 except px.Unbound as ub:
                     return trace, f"{ub.kind}:{ub.what}"
                 v = np.asarray(v, dtype=float)
@@ -614,11 +744,15 @@ def _fill(sf, prog, cmds, free_name, cache=None):
             elif c["k"] == "new":
                 ops.New(1)
             else:
-                ek = json.dumps(c["e"], sort_keys=True)
+                ek = json.dumps([c["e"], c.get("e2")], sort_keys=True)
                 if cache is not None and ("e", ek) in cache:
                     e = cache[("e", ek)]
                 else:
                     e = px.to_sympy(c["e"], fobj, R)
+                    if "e2" in c:
+                        arr = np.empty(2, dtype=object)
+                        arr[0], arr[1] = e, px.to_sympy(c["e2"], fobj, R)
+                        e = arr
                     if cache is not None:
                         cache[("e", ek)] = e
                 ok = ("o", c["op"], ek)
@@ -664,7 +798,16 @@ def _same_trace(h, tr, ref):
 
 
 def _run_kw(h):
-    return dict(compile_options=dict(compiler="fock", optimize=True, warn_connected=False)) if h.get("opt") else {}
+    if h.get("opt") in (True, "compile"):
+        return dict(compile_options=dict(compiler="fock", optimize=True, warn_connected=False))
+    return {}
+
+
+def _opt(h, p):
+    """Program.optimize() rebuilds the command order from the dependency graph"""
+    if h.get("opt") == "method":
+        return [x.optimize() for x in p] if isinstance(p, list) else p.optimize()
+    return p
 
 
 def history_real(sf, h):
@@ -690,7 +833,7 @@ def history_real(sf, h):
         # a first attempt to run the last segment alone (legitimately fails when it needs earlier outcomes)
         b0 = px.make_backend(_outcomes(h, h["segs"][-1:]) * 2)
         try:
-            sf.Engine(b0).run(progs[-1], args=dict(h["free"]), **_run_kw(h))
+            sf.Engine(b0).run(_opt(h, progs[-1]), args=dict(h["free"]), **_run_kw(h))
         except PE:
             pass
         except RuntimeError as e:   # a successor whose register starts with deleted / created modes is refused
@@ -701,13 +844,13 @@ def history_real(sf, h):
         try:
             if h["run"] == "list":
                 kw = dict(shots=h["shots"]) if h["shots"] > 1 else {}
-                eng.run(progs, args=dict(h["free"]), **kw, **_run_kw(h))
+                eng.run(_opt(h, progs), args=dict(h["free"]), **kw, **_run_kw(h))
             else:
                 for k in range(len(h["segs"])):
                     if h["build"] == "lazy" and len(progs) <= k:
                         build(k)
                     kw = dict(shots=h["shots"]) if (h["shots"] > 1 and k == 0) else {}
-                    eng.run(progs[k], args=dict(h["free"]), **kw, **_run_kw(h))
+                    eng.run(_opt(h, progs[k]), args=dict(h["free"]), **kw, **_run_kw(h))
             return None
         except PE as e:
             return "ParameterError"
@@ -720,7 +863,7 @@ def history_real(sf, h):
         # the last segment alone on a fresh engine: its Program's RegRefs still hold the outcomes of the full run
         b3 = px.make_backend(_outcomes(h, h["segs"][-1:]))
         try:
-            sf.Engine(b3).run(progs[-1], args=dict(h["free"]), **_run_kw(h))
+            sf.Engine(b3).run(_opt(h, progs[-1]), args=dict(h["free"]), **_run_kw(h))
             suffix = (_trace(b3), None)
         except PE:
             suffix = (_trace(b3), "ParameterError")
@@ -765,10 +908,8 @@ def history_model_req(sf, h, own0=None):
             elif c["k"] in ("del", "new"):
                 ms.append({"prepare": c.get("mode", 0)})   # register bookkeeping does not touch RegRef.val
             else:
-                e = c["e"]
-                if c["op"] in sc:
-                    e = {"mul": [e, sc[c["op"]]]}
-                ms.append({"use": {"neg": e} if c["dagger"] else e})
+                es = [({"neg": e} if c["dagger"] else e) for e in [c["e"]] + ([c["e2"]] if "e2" in c else [])]
+                ms.append({"useArr": es} if "e2" in c else {"use": es[0]})
         segs.append(ms)
     return {"op": "param.engine", "free": [[k, rat(v)] for k, v in h["free"].items()], "segs": segs,
             "query": list(range(h["n"])), "own0": [[m, rat(v)] for m, v in (own0 or {}).items()]}
@@ -786,20 +927,29 @@ def canon_tree(sf, t, n, names):
         return t
 
 
+def _is_zero(t):
+    return not px.atoms(t, "m") and not px.atoms(t, "f") and px.fold(t) == 0
+
+
+def _use_trees(h):
+    return [t for cmds in h["segs"] for c in cmds if c["k"] == "use" for t in [c["e"]] + ([c["e2"]] if "e2" in c else [])]
+
+
 def history_one(ctx, sf, h, reqs, pend):
     h = copy.deepcopy(h)
     for cmds in h["segs"]:
         for c in cmds:
             if c["k"] == "use":
                 c["e"] = canon_tree(sf, c["e"], h["n"], list(h["free"]))
+                if "e2" in c:
+                    c["e2"] = canon_tree(sf, c["e2"], h["n"], list(h["free"]))
         # a gate whose stored first parameter is the number 0 is the identity and is not sent to the backend
-        cmds[:] = [c for c in cmds if not (c["k"] == "use" and not px.atoms(c["e"], "m") and not px.atoms(c["e"], "f")
-                                           and px.fold(c["e"]) == 0)]
+        cmds[:] = [c for c in cmds if not (c["k"] == "use" and _is_zero(c["e"]) and ("e2" not in c or _is_zero(c["e2"])))]
     rp = dict(kind="history", case=h)
     ref_tr, ref_err = history_reference(sf, h)
-    conditioned = all(px.well_conditioned(c["e"], h["free"], {m: 1.0 for m in range(h["n"])}, 1e4)
-                      for cmds in h["segs"] for c in cmds if c["k"] == "use")
-    ctx.count("history_%dseg_%s_%s" % (len(h["segs"]), h["build"], h["run"]), h, True, sample=h)
+    conditioned = all(px.well_conditioned(t, h["free"], {m: 1.0 for m in range(h["n"] + 1)}, 1e4) for t in _use_trees(h))
+    ctx.count("history_%dseg_%s_%s%s" % (len(h["segs"]), h["build"], h["run"], "_opt" + str(h["opt"]) if h.get("opt") else ""),
+              h, True, sample=h)
     try:
         tr, err, again, suffix = history_real(sf, h)
     except Exception as e:
@@ -851,7 +1001,7 @@ def history_compare(ctx, h, got, model):
         return
     if got["cond"]:
         mt = [float(px.fold(t)) for t in model["trace"]]
-        rt = [a[1] for a in got["trace"]]
+        rt = [float(x) for a in got["trace"] for x in np.ravel(a[1])]
         if h.get("opt"):
             # the optimizer may reorder independent commands; the model runs the written order
             if got["err"]:
@@ -934,7 +1084,7 @@ def session_real(sf, h):
             if "Register mismatch" not in str(e):
                 raise
             return out   # a refused call ends the comparison (register bookkeeping is not this model's subject)
-        out.append(({"run": segs}, [a[1] for a in _trace(backend)], err))
+        out.append(({"run": segs}, [float(x) for a in _trace(backend) for x in np.ravel(a[1])], err))
     return out
 
 
@@ -944,8 +1094,9 @@ def session_one(ctx, sf, h, reqs, pend):
         for c in cmds:
             if c["k"] == "use":
                 c["e"] = canon_tree(sf, c["e"], h["n"], list(h["free"]))
-        cmds[:] = [c for c in cmds if not (c["k"] == "use" and not px.atoms(c["e"], "m") and not px.atoms(c["e"], "f")
-                                           and px.fold(c["e"]) == 0)]
+                if "e2" in c:
+                    c["e2"] = canon_tree(sf, c["e2"], h["n"], list(h["free"]))
+        cmds[:] = [c for c in cmds if not (c["k"] == "use" and _is_zero(c["e"]) and ("e2" not in c or _is_zero(c["e2"])))]
     ctx.count("session_%dcalls" % len(h["calls"]), h, True)
     try:
         res = session_real(sf, h)
@@ -953,8 +1104,7 @@ def session_one(ctx, sf, h, reqs, pend):
         ctx.fail("session-crash", f"a session of eng.run calls raises {type(e).__name__}: {str(e)[:200]}",
                  dict(kind="session", case=h))
         return
-    conditioned = all(px.well_conditioned(c["e"], h["free"], {m: 1.0 for m in range(h["n"] + 1)}, 1e4)
-                      for cmds in h["segs"] for c in cmds if c["k"] == "use")
+    conditioned = all(px.well_conditioned(t, h["free"], {m: 1.0 for m in range(h["n"] + 1)}, 1e4) for t in _use_trees(h))
     if ctx.proof_ok and res:
         reqs.append({"op": "param.session", "free": [[k, rat(v)] for k, v in h["free"].items()],
                      "events": [r[0] for r in res]})
@@ -1410,6 +1560,8 @@ def flush(ctx, sf, reqs, pend):
             history_compare(ctx, case, got, model)
         elif kind == "session":
             session_compare(ctx, case, got, model)
+        elif kind == "expand":
+            expand_compare(ctx, sf, case, got, model)
         elif kind == "convert":
             convert_compare(ctx, case, got, model)
     reqs.clear()
@@ -1428,6 +1580,8 @@ def dispatch(ctx, sf, item, reqs, pend):
         prog_one(ctx, sf, item["case"], item["cfg"])
     elif k == "session":
         session_one(ctx, sf, item["case"], reqs, pend)
+    elif k == "expand":
+        expand_one(ctx, sf, item["case"], reqs, pend)
     elif k == "convert":
         convert_one(ctx, sf, item["case"], reqs, pend)
     elif k == "cache_order":
@@ -1471,6 +1625,8 @@ def run(ctx, sf):
         safe(ctx, sf, dict(kind="free", case=gen_free_script(rng)), reqs, pend)
     for _ in range(ctx.n(300, 5000)):
         safe(ctx, sf, dict(kind="decomp", case=gen_decomp_case(rng)), reqs, pend)
+    for _ in range(ctx.n(150, 3000)):
+        safe(ctx, sf, dict(kind="expand", case=gen_expand_case(rng)), reqs, pend)
     for _ in range(ctx.n(200, 3000)):
         safe(ctx, sf, dict(kind="convert", case=gen_convert_case(rng)), reqs, pend)
     for k in range(ctx.n(450, 9000)):
@@ -1490,7 +1646,57 @@ def run(ctx, sf):
         safe(ctx, sf, dict(kind="prog", case=spec, cfg=gen_cfg(rng, spec, k)), reqs, pend)
 
 
+def _bind_free(t, vals):
+    """the tree with its free atoms replaced by numbers"""
+    if "f" in t:
+        v = vals.get(t["f"])
+        return px.num(0.5 if v is None else v)
+    out = {}
+    for k, v in t.items():
+        if k in ("add", "mul", "pow", "a"):
+            out[k] = [_bind_free(x, vals) for x in v]
+        elif k == "neg":
+            out[k] = _bind_free(v, vals)
+        else:
+            out[k] = v
+    return out
+
+
+def directed_histories(case):
+    """end-to-end histories built around the parameter of a parameter-level case (used when the correspondence of
+    par_regref_deps / par_evaluate breaks): the subsystems it reads are measured, an operation with this parameter
+    acts on ANOTHER mode behind the measurement and the subsystems are measured again behind it; the command order is
+    rebuilt from the dependency graph (compile(optimize=True) / Program.optimize()), in one segment and split"""
+    trees = [_bind_free(t, effective_free(case["free"])) for t in trees_of(case["p"])]
+    trees = [t for t in trees if px.atoms(t, "m")] + [t for t in trees if not px.atoms(t, "m")]
+    if not trees or not px.atoms(trees[0], "m"):
+        return
+    use = dict(k="use", e=trees[0], op="Dgate", dagger=False, target=5)
+    if len(trees) > 1:
+        use["e2"] = trees[1]
+    ms = sorted({m for t in trees[:2] for m in px.atoms(t, "m")})
+    vals = meas_env(case)
+    m1 = [dict(k="measure", modes=[m], vals=[float(np.real(vals.get(m, 0.5))) or 0.25], how="homodyne") for m in ms]
+    m2 = [dict(k="measure", modes=[m], vals=[float(np.real(vals.get(m, 0.5))) + 1.0], how="homodyne") for m in ms]
+    prep = [dict(k="prepare", mode=5, how="Coherent"), dict(k="prepare", mode=5, how="Vacuum")]
+    for opt in ("compile", "method"):
+        for segs, run_ in (([prep + m1 + [use] + m2], "successive"), ([m1 + prep, [dict(use, target=5)] + m2], "list"),
+                           ([m1, prep + [use] + m2 + [dict(use, target=3, op="Rgate")]], "successive")):
+            yield dict(n=12, free={"hd%d" % next(_uid): 0.5}, segs=copy.deepcopy(segs), build="before", shots=1, opt=opt,
+                       share=False, run=run_, decoy=False, rerun=None, premature=False, suffix=False)
+
+
 def search(ctx, sf):
+    # directed cases first: turn a broken parameter-level correspondence into an end-to-end failing input
+    reqs, pend = [], []
+    seen = 0
+    for d in list(ctx.disagreements):
+        case = d.get("case")
+        if seen >= 12 or not (isinstance(case, dict) and "p" in case and "meas" in case and case.get("kind") != "cplx"):
+            continue
+        seen += 1
+        for h in directed_histories(case):
+            safe(ctx, sf, dict(kind="history", case=h), reqs, pend)
     run(ctx, sf)
 
 
